@@ -1,6 +1,7 @@
 import TrackpyV.Model.Proto
 import TrackpyV.Model.Relocate
 import TrackpyV.Model.FindLinkAlgo
+import TrackpyV.Model.FindLinkOpt
 import TrackpyV.Driver.Linker
 
 /-! Driver ops for C14 (find_link relocation).
@@ -12,11 +13,16 @@ import TrackpyV.Driver.Linker
       (pts in the order the code returns them: heaviest first)
 `FLRUN <linker cfg> ; t=0 | 1,2 3,4 | 0 1 | <added indices> ; ...`
    -> `verdict=ok` | `verdict=bad step=<k>`
-`FLSTEP <linker cfg> ; t=0 | 1,2 3,4 | 0 1 ; … (the labelled levels before the step) ; CUR t=3 | <handed detections> ; ORC <pos pos> | <cand cand> | <mass mass> ; ORC …`
+`FLSTEP <linker cfg> ; t=0 | 1,2 3,4 | 0 1 ; … (the labelled levels before the step) ; CUR t=3 | <handed detections> ; ORC <pos pos> | <cand cand> | <mass mass> ; ORC … [; OUT t=3 | <emitted pts> | <labels> | <added indices>]`
    one `FindLinker.next_level` by the model `FindLink.flAlgoStep`; the state is rebuilt from the
    labelled levels with `nextState`; the oracle answers a call for the source positions `pos` (as a
    set) with the recorded candidates of that call, `[]` (and `miss` + 1) for a set it was never asked
-   -> `ok dsts=<p;p> added=<i,i> labels=<l,l> fresh=<first unused label> miss=<k> unused=<k> tied=<0|1> capped=<0|1> oversize=<0|1> groups=<n> short=<n> merged=<n>`
+   -> `ok dsts=<p;p> added=<i,i> labels=<l,l> fresh=<first unused label> miss=<k> unused=<k> tied=<0|1> capped=<0|1> oversize=<0|1> groups=<n> short=<n> merged=<n> local=<0|1> lostonly=<0|1> implopt=<ok|bad|->`
+   `local` = the side condition `FindLink.addedLocalB` of `Props/C14Opt.flAlgo_accepted_opt_partial` on the
+   model's step (every added feature is seen by the sources of one sub-net only); `lostonly` = the
+   hypothesis of `flAlgo_accepted_opt_of_lost` (sub-nets with a shortage consist of lost sources only);
+   `implopt` = `flStep` in OPTIMALITY mode (`noOpt := false`) on the implementation's labelled level
+   `OUT` from the same state (`-` when no `OUT` item was sent)
 -/
 namespace TrackpyV.Driver.C14
 open TrackpyV.Proto TrackpyV.Find TrackpyV.Relocate
@@ -121,9 +127,11 @@ def handleFLStep (rest : String) : String :=
   match splitKeep rest ";" with
   | [] => "bad-op"
   | c :: items =>
-    let lvS := items.filter (fun x => !(x.startsWith "CUR") && !(x.startsWith "ORC") && x != "")
+    let lvS := items.filter (fun x => !(x.startsWith "CUR") && !(x.startsWith "ORC") &&
+      !(x.startsWith "OUT") && x != "")
     let curS := items.filter (fun x => x.startsWith "CUR")
     let orcS := items.filter (fun x => x.startsWith "ORC")
+    let outS := items.filter (fun x => x.startsWith "OUT")
     match Driver.Linker.parseCfg? c, parseAll Driver.Linker.parseLevel? lvS, curS,
           parseAll (fun x => parseOrc? (x.drop 3).toString) orcS with
     | some cfg, some (l0 :: levels), [cur], some tab =>
@@ -142,7 +150,16 @@ def handleFLStep (rest : String) : String :=
           let miss := (keys.filter (fun k => !(tab.any (fun e => sameSet e.pos k)))).length
           let unused := (tab.filter (fun e => !(keys.any (fun k => sameSet e.pos k)))).length
           let b := fun (x : Bool) => if x then 1 else 0
-          s!"ok dsts={showIPts out.dsts} added={showNatList out.added} labels={showNatList out.labels} fresh={freshBase st} miss={miss} unused={unused} tied={b (stepTied cfg st t out.dsts)} capped={b (cappedB cfg st t out.dsts)} oversize={b (oversizeB cfg (stepGroups cfg st t out.dsts) || gs.any (fun g => decide (g.1.length > cfg.maxSize)))} groups={gs.length} short={(gs.filter short).length} merged={g1.length - gs.length}"
+          let lost := lostSources g1
+          let lostOnly := (gs.filter short).all (fun g => g.1.all (fun i => lost.contains i))
+          let implopt := match outS with
+            | [o] => match parseFLevel? (o.drop 3).toString with
+              | some lv => (match Relocate.flStep { cfg with noOpt := false } st lv.t lv.dsts lv.labels lv.added with
+                | some _ => "ok"
+                | none => "bad")
+              | none => "unparsed"
+            | _ => "-"
+          s!"ok dsts={showIPts out.dsts} added={showNatList out.added} labels={showNatList out.labels} fresh={freshBase st} miss={miss} unused={unused} tied={b (stepTied cfg st t out.dsts)} capped={b (cappedB cfg st t out.dsts)} oversize={b (oversizeB cfg (stepGroups cfg st t out.dsts) || gs.any (fun g => decide (g.1.length > cfg.maxSize)))} groups={gs.length} short={(gs.filter short).length} merged={g1.length - gs.length} local={b (addedLocalB cfg st t gs dsts.length out.dsts)} lostonly={b lostOnly} implopt={implopt}"
         | _, _ => "bad-op"
       | _ => "bad-op"
     | _, _, _, _ => "bad-op"
